@@ -190,6 +190,8 @@ def closed_forms(ctx: Ctx) -> Dict[str, int]:
 def check(ctx: Ctx) -> None:
     torch.set_default_dtype(torch.float64)
     closed_forms(ctx)
+    from checks import bs_common
+    bs_common.strike_spelling(ctx, "greeks")
     torch.set_default_dtype(torch.float32)
     res = ctx.tlc("MC_AutoGreek", "MC_AutoGreek.cfg", workers=8)
     require_actions(res, ["ParseLeaf", "Rederive", "Filter", "Differentiate"])
